@@ -312,6 +312,9 @@ type propFn func(c *Ctx)
 var props = map[string]propFn{}
 
 func main() {
+	if os.Getenv("VERIF_COLDSTART") == "1" {
+		coldStartChildMain()
+	}
 	var c Ctx
 	var out, caseLog string
 	flag.StringVar(&c.Prop, "prop", "", "property id")
